@@ -41,6 +41,8 @@ func c15Alphabet() []c15Scalar {
 		num("0", "0"), num("1", "1"), num("-1", "-1"), num("2", "2"), num("10", "10"),
 		num("9223372036854775807", "9223372036854775807"), num("9223372036854775806", "9223372036854775806"), num("-9223372036854775808", "-9223372036854775808"),
 		num("0x10", "16"), num("-0x10", "-16"), num("+0x10", "16"), num("-0o17", "-15"), num("0x7FFFFFFFFFFFFFFE", "9223372036854775806"), num("0x8000000000000000", "9223372036854775808"), num("18446744073709551615", "18446744073709551615"), num("0o7", "7"), num("1.0", "1"), num("1.5", "1.5"), num("-0.5", "-0.5"), num("1e3", "1000"), num("9.223372036854775807e18", "9223372036854775808"), num(".inf", "Inf"), num("-.inf", "-Inf"), {Text: ".nan", Class: 2},
+		// the other spellings the YAML core schema resolves to a float
+		num("-.Inf", "-Inf"), num("-.INF", "-Inf"), num(".Inf", "Inf"), num("+.INF", "Inf"), {Text: ".NaN", Class: 2},
 		str("a"), str("b"), str("B"), str(""), str("10"), str("é"), str(" "),
 		// strings that look like instants (text order and time order differ for this pair)
 		str("2021-01-01T00:00:00+01:00"), str("2020-12-31T23:30:00Z"),
